@@ -1249,3 +1249,88 @@ def clear_domain(u: U):
     u.check("C16.clear_domain.exactly_the_domain_and_its_subdomains", got == want,
             f"clear_domain({target!r}) removes {want}, got {got}: a look-alike domain (myexample.com for example.com) keeps "
             "its cookies", witness={"target": target, "deleted": got})
+
+
+@unit("C16", "clear_domain.generic", functions=[f"{MOD}:CookieJar.clear_domain", f"{MOD}:CookieJar.clear"],
+      must_cover=("C16.clear_domain.generic.matching_cookie_deleted", "C16.clear_domain.generic.other_cookie_kept",
+                  "C16.clear_domain.generic.expired_cookie_deleted"))
+def clear_domain_generic(u: U):
+    """UNBOUNDED companion of the stand-in above (generic-element reasoning: the comprehension in `clear` carries nothing
+    from one cookie to the next).  Three arbitrary cookies - two in one (domain, path) bucket, one in another - each with
+    an arbitrary *symbolic* Domain attribute, an arbitrary deadline or none, arbitrary clock, arbitrary target domain.
+    `_is_domain_match` is a recording stub that answers an arbitrary boolean per call (its own contract is proved for all
+    strings in C16.domain_match).  Proved: the stub is asked exactly about (target, that cookie's Domain attribute) in
+    that order; a cookie for which the answer is true is handed to _delete_cookies; a cookie is handed over only if the
+    answer is true or its deadline has passed (when exactly an expired cookie goes is left open - selection checks the
+    deadline itself); a cookie the stub was not asked about has expired; a cookie is handed over once."""
+    target = SText.fresh("target_domain")
+    now = u.real("now")
+    names = [(("d1", "/"), "a"), (("d1", "/"), "b"), (("d2", "/p"), "a")]
+    doms, morsels, exps, cookies = {}, {}, {}, {}
+    for (bucket, name) in names:
+        key = (bucket[0], bucket[1], name)
+        doms[key] = SText.fresh(f"domain_attr.{bucket[0]}.{name}")
+        morsels[key] = Mors(u, f"m.{bucket[0]}.{name}", {"domain": doms[key], "path": bucket[1]}, key=name)
+        cookies.setdefault(bucket, {})[name] = morsels[key]
+        if u.choose(2, f"has_deadline.{bucket[0]}.{name}") == 1:
+            exps[key] = u.real(f"deadline.{bucket[0]}.{name}")
+    deleted, asked = [], []
+
+    def is_match(self, domain, hostname):
+        ans = u.bool(f"match.{len(asked)}")
+        asked.append((domain, hostname, ans))
+        return ans
+
+    class _time:
+        time = staticmethod(lambda: now)
+
+    jar = mk_jar(u, fields={"_cookies": cookies, "_expirations": dict(exps), "_expire_heap": []},
+                 methods={"_delete_cookies": lambda self, keys: deleted.extend(keys), "_is_domain_match": is_match})
+    object.__setattr__(jar, "_o_real", (MOD, "CookieJar"))
+    u.module_globals[MOD] = {"time": _time}
+    f = u.load(MOD, "CookieJar.clear_domain")
+    from pyvc import LoopSpec
+
+    u.default_loop_spec = LoopSpec(unroll=True, bound=8)
+    out = u.call(f, jar, target)
+    u.check("C16.clear_domain.generic.total", out.ok, repr(out))
+    if not out.ok:
+        return
+    got = [tuple(k) for k in deleted]
+    u.check("C16.clear_domain.generic.no_key_twice_and_only_jar_keys",
+            len(got) == len(set(got)) and all(k in morsels for k in got),
+            f"_delete_cookies receives keys of the jar, each at most once: {got}")
+    for key in morsels:
+        mine = [a for a in asked if a[1] is doms[key]]
+        u.check("C16.clear_domain.generic.asks_target_against_cookie_domain",
+                all(a[0] is target for a in mine) and len(mine) <= 1
+                and all(any(a[1] is d for d in doms.values()) for a in asked),
+                "the matching predicate is applied to (target domain, the cookie's own Domain attribute) - in this order "
+                "(RFC 6265 5.1.3 is not symmetric: the cookies of example.com are not cleared by clear_domain('a.example.com'))",
+                witness={"key": key, "asked": [(repr(a[0]), repr(a[1])) for a in asked]})
+        if key in exps:
+            expired = exps[key] <= now
+        else:
+            expired = False
+        if mine:
+            cond = Or(expired, mine[0][2])
+        else:
+            # short-circuit: the predicate is not consulted for a cookie that has expired anyway
+            u.check("C16.clear_domain.generic.predicate_skipped_only_when_expired", expired,
+                    "every cookie that has not expired is put to the domain test", witness={"key": key})
+            cond = expired
+        handed = key in got
+        if mine:
+            u.check("C16.clear_domain.generic.matching_cookie_leaves", Implies(mine[0][2], handed),
+                    "a cookie whose domain domain-matches the target is handed to _delete_cookies: no cookie of the cleared "
+                    "site stays", witness={"key": key, "deleted": got})
+        u.check("C16.clear_domain.generic.only_matching_or_expired_leave", Implies(handed, cond),
+                "a cookie leaves the jar only if its domain domain-matches the target or its deadline has passed: no other "
+                "site loses a live cookie (whether an expired one goes now or at the next sweep is left open)",
+                witness={"key": key, "deleted": got})
+        if handed and mine and key not in exps:
+            u.cover("C16.clear_domain.generic.matching_cookie_deleted")
+        if not handed:
+            u.cover("C16.clear_domain.generic.other_cookie_kept")
+        if handed and key in exps and not mine:
+            u.cover("C16.clear_domain.generic.expired_cookie_deleted")
